@@ -264,7 +264,7 @@ func firstDiff(a, b string) string {
 
 func classifyErr(msg string) string {
 	switch {
-	case strings.Contains(msg, "printOperation") && strings.Contains(msg, "conflicting types"):
+	case strings.Contains(msg, "printOperation") && (strings.Contains(msg, "conflicting types") || strings.Contains(msg, "differing types")):
 		return "planned-operation-merge-conflict"
 	case strings.Contains(msg, "could not plan") || strings.Contains(msg, "planner") || strings.Contains(msg, "plan"):
 		return "planning"
